@@ -456,10 +456,17 @@ def standard(ctx, spec):
         model = {}
     known, _ = load_known()
     dec = spec.get("decode", lambda p: p)
-    bad, kf_hits, nontrivial = [], {}, set()
+    bad, kf_hits, nontrivial, outside = [], {}, set(), 0
     for i in sorted(cases):
         g = gores.get(i, "MISSING-RESULT")
         m, attrs = model.get(i, ("MISSING-MODEL-RESULT", {}))
+        if m.startswith("UNSUP") or attrs.get("skip") == "1":
+            # the case is outside the model (stated by the model itself): not compared, but a
+            # crash / hang / panic of the real code is still a violation of any property here
+            outside += 1
+            if g.startswith(("CRASH", "PANIC", "HANG")):
+                bad.append(i)
+            continue
         if attrs.get("nt") == "1":
             nontrivial.add(cases[i])
         if g == m:
@@ -474,6 +481,7 @@ def standard(ctx, spec):
     cov["rule"] = spec.get("rule", "")
     cov["input_distribution"] = stats
     cov["disagreements"] = len(bad)
+    cov["outside_model_not_compared"] = outside
     cov["crashes"] = sum(len(i["crashes"]) for i in infos.values())
     sample_idx = sorted(cases)[:: max(1, len(cases) // 6)][:6]
     cov["samples"] = [{"case": dec(cases[i]), "go": gores.get(i), "model": model.get(i, ("", {}))[0]} for i in sample_idx]
